@@ -13,8 +13,8 @@ BOUNDARY = [0, 1, 2, 3, 7, 15, 16, 17, 255, 256, 65535, 65536, 65537, 2147483647
 NAMES = ['x', 'y', 'z', 'w', 'k', 'm', 'a', 'b', 'c', 'd']
 STRINGS = ['a', 'abc', 'hello', '0123456', 'xy', 'The quick', '', 'a\nb', "q'\"\\t\t"]
 CHARS = 'aZ09 !#&()*+-/<=>?@[]^_{}~'
-STREAMS_OUT = [0, 0, 0, 255, 7, 256, 512, 0x700, 0x7FF]
-STREAMS_IN = [0, 0, 0, 255, 3, 0x100, 0x300, 0x6AB]
+STREAMS_OUT = [0, 0, 0, 255, 7, 256, 512, 0x700, 0x7FF, 2048, 0x10200, -1, -256]
+STREAMS_IN = [0, 0, 0, 255, 3, 0x100, 0x300, 0x6AB, 0x800 + 0x300, -1]
 
 FULL, PURE, SAFE = 2, 1, 0
 
@@ -231,7 +231,7 @@ class Gen:
                     s = 0
                 else:
                     self.used_out_files.add(f)
-        return self.literal(s) if s < 256 else lit(s)
+        return self.literal(s) if 0 <= s < 256 else lit(s)
 
     def index(self, env, a, d, mode):
         """A subscript in range by construction."""
